@@ -76,6 +76,10 @@ class C05(Prop):
                         rows.append(got[1].tolist()); kinds.append(got[0])
                     if len(rows) == n and len({tuple(r) for r in rows}) == n:
                         break
+
+                if n >= 3 and rng.random() < 0.5:
+                    # two rows share a target but not their weights (row independence must still hold)
+                    rows[n - 1] = list(rows[0]); kinds[n - 1] = kinds[0]
                 W = [[rng.randint(2, 8) / 4 for _ in range(sys["m"])] for _ in range(n)]
                 systems[key] = ({k: (v.tolist() if isinstance(v, np.ndarray) else v) for k, v in sys.items()}, rows, W, kinds)
             sysd, rows, W, kinds = systems[key]
@@ -102,6 +106,18 @@ class C05(Prop):
         recs = [r[1] for r in core.drain_hooks() if r[0] == "solve"]
         return np.asarray(X, dtype=float), np.asarray(Bp, dtype=float), recs
 
+    def single_rows(self, case):
+        """each row fitted alone in its own call (n_samples = 1): the reference for row independence"""
+        out = []
+        for i in range(case["n"]):
+            c1 = dict(case, n=1, B=[case["B"][i]], W=[case["W"][i]])
+            try:
+                X, Bp, _ = self.call(c1, 1)
+                out.append(Bp[0].tolist())
+            except Exception as e:  # noqa
+                out.append(None)
+        return out
+
     def run_impl(self, case):
         ref = None
         try:
@@ -118,7 +134,8 @@ class C05(Prop):
         if case["proc"] == "variance":
             # the first-stage ordinary fit also records through _solve_problem; keep the second stage only
             pass
-        return {"X": X.tolist(), "Bpred": Bp.tolist(), "ref": ref,
+        single = self.single_rows(case) if (case["proc"] in ("gaussian", "variance") and case["bs"] in (2, "full")) else None
+        return {"X": X.tolist(), "Bpred": Bp.tolist(), "ref": ref, "single": single,
                 "recs": [{"idx": int(r["idx"]), "padded": bool(r["padded"]), "rows": [int(i) for i in r["rows"]],
                           "b": np.asarray(r["b"], dtype=float).ravel().tolist(), "w": np.asarray(r["w"], dtype=float).ravel().tolist(),
                           "status": r["status"]} for r in recs]}
@@ -146,9 +163,16 @@ class C05(Prop):
             return {"what": "%s with n_samples=%d, batch_size=%r raised %s: %s (batch_size=1 succeeds)" % (
                 case["proc"], case["n"], case["bs"], out["error"], out.get("msg", "")[:120]),
                 "class": "raises:%s:%s:%s" % (case["proc"], ck, out["error"])}
+        tol = 2e-2 if case["proc"] == "excitation" else 2e-3
+        if out.get("single"):
+            for i, sp in enumerate(out["single"]):
+                if sp is not None:
+                    d1 = np.abs(np.asarray(out["Bpred"][i]) - np.asarray(sp)).max()
+                    if d1 > tol:
+                        return {"what": "%s n=%d batch_size=%r: row %d fitted together with the other rows differs by %.3g from the same row fitted alone (row independence)" % (
+                            case["proc"], case["n"], case["bs"], i, d1), "class": "row-dependence:%s:%s" % (case["proc"], ck)}
         if "error" in ref:
             return None
-        tol = 2e-2 if case["proc"] == "excitation" else 2e-3
         d = np.abs(np.asarray(out["Bpred"]) - np.asarray(ref["Bpred"]))
         if d.max() > tol:
             i = int(np.argmax(d.max(axis=1)))
